@@ -12,11 +12,12 @@ hdr = json.loads(open(os.path.join(d, rej)).readline())
 fd = build.build_flex()
 wd = tempfile.mkdtemp(prefix="rerun.")
 c = dict(scanner.DEFAULT_CFG); c.update(cfg)
-cpath = os.path.join(wd, "s.c")
+cxx = c.get("flavour") == "cxx"
+cpath = os.path.join(wd, "s.cc" if cxx else "s.c")
 subprocess.run([fd + "/flex"] + scanner.flex_args(c) + ["-o", cpath, l], check=True)
 defs = scanner.detect_defs(open(cpath).read())
 exe = os.path.join(wd, "s")
-subprocess.run(["gcc", "-O0", "-g", "-w", "-D_GNU_SOURCE", "-fsanitize=address,undefined"] + ["-D" + x for x in defs] + ["-I", fd, "-o", exe, cpath], check=True)
+subprocess.run(["g++" if cxx else "gcc", "-O0", "-g", "-w", "-D_GNU_SOURCE", "-fsanitize=address,undefined"] + ["-D" + x for x in defs] + ["-I", fd, "-o", exe, cpath], check=True)
 files = ";".join(bytes(f).hex() for f in hdr["files"])
 keep = {k: hdr[k] for k in ("rs", "interactive", "array", "linenoopt", "bolneeded", "rejectmode", "strictread", "reentrant", "userwrap", "failalloc", "stdio") if k in hdr}
 line = "\t".join([json.dumps(keep)[1:-1], files, hdr.get("sched", ""), hdr.get("ops", "-,0"), str(hdr["bufsize"]), str(hdr.get("initsc", 0)),
